@@ -63,3 +63,23 @@ pub fn vm_snapshot(context: &crate::Context) -> String {
     }
     out
 }
+
+/// The disassembly (`Display`) of a code block followed by those of every function constant, recursively.
+/// Blocks are separated by a line `==== block <n> ic=<inline cache count> ====`.
+pub fn dump_code_blocks(code: &boa_gc::Gc<crate::vm::CodeBlock>) -> String {
+    fn go(code: &boa_gc::Gc<crate::vm::CodeBlock>, out: &mut String, n: &mut usize) {
+        use std::fmt::Write;
+        let _ = writeln!(out, "==== block {} ic={} ====", *n, code.ic.len());
+        *n += 1;
+        let _ = writeln!(out, "{code}");
+        for constant in &code.constants {
+            if let crate::vm::Constant::Function(f) = constant {
+                go(f, out, n);
+            }
+        }
+    }
+    let mut out = String::new();
+    let mut n = 0;
+    go(code, &mut out, &mut n);
+    out
+}
